@@ -79,6 +79,98 @@ PROPS["C03"] = {
     "thorough": {"cases": 2500000, "floor": 300000, "time_budget": 3000},
 }
 
+PROPS["C10"] = {
+    "worker": "c10", "variant": "chk", "level": "exploration",
+    "rule": ("case = container file from jxlgen's writer: well-formed random layout (jxlc or 1..12 jxlp incl. empty parts, aux boxes "
+             "Exif/xml/jumb/jxll/jxli/jhgm/jbrd/unknown interleaved anywhere, brob with stored Brotli, 32-bit/64-bit/to-EOF sizes, payloads "
+             "0..70k, rarely >1 MiB), or one of 14 ill-formed kinds, or a mutated/truncated file, or (10%) a file around a codestream that "
+             "really initialises, decoded through JxlImage (feed API and read()); each file fed whole + 4 (thorough 6) chunkings out of 8 "
+             "strategies. signature = (class/ill kind/mutation set + reference verdict, codestream form+part-count bucket+empty parts, "
+             "size-form sets, aux/brob count buckets and position, last-box kind); non-trivial iff container with >= 3 boxes (ill-formed: always)"),
+    "assumptions": [
+        "jxlgen::container (writer, layout truth, whole-file reference reader, stored-Brotli writer) is written from the box syntax of 18181-2 / RFC 7932 and shares no code with the decoder; the two models are cross-checked on every generated file",
+        "a parser that is never told about EOF need not emit AuxBoxEnd of a sized box ending exactly at EOF nor NoMoreAuxBox of an empty to-EOF codestream box",
+        "missing ftyp / boxes before ftyp are tolerated (not in C10's reject list); wrong signature => kind Invalid",
+        "jxl-oxide level: only first Exif / first xml are observable through the public API; jbrd content is C17's business",
+    ],
+    "level_text": ("exploration: millions of generated container files, each parsed under several chunkings; the event stream, consumed-byte "
+                   "count and aux box contents are compared exactly with an independent reference reader"),
+    "level_note": "trusted: jxlgen::container writer + reference reader (cross-checked against each other per file), comparison code in c10.rs",
+    "technique": "runtime differential monitor: independent container writer + reference reader vs ContainerParser event stream under many chunkings, and vs JxlImage aux box API",
+    "quick": {"cases": 3000000, "floor": 600000, "time_budget": 240},
+    "thorough": {"cases": 100000000, "floor": 20000000, "time_budget": 2700},
+}
+
+PROPS["C16"] = {
+    "worker": "c16", "variant": "chk", "level": "exploration",
+    "rule": ("case idx -> type = idx % 27; per 8 cases of a type: 5 impulses (16 special positions, then a full-period scattered walk over "
+             "all W*H positions; random amplitude 2^-8..2^16), 1 dense block (gaussian, frequency-decaying, log-uniform mixed), 1 structured "
+             "block (zero, DC-only, sparse, one row/column, low-pass corner, all-equal, 1e12-scale), 1 transform_varblocks case (random "
+             "varblock tiling, LF insertion, 3 channels, chroma shifts) or a forward LF dct_2d case. Buffers sit at aligned or +4/+8/+12 byte "
+             "addresses with strides that are / are not multiples of 4. Each block runs through generic transform, x86_64 runtime-dispatched "
+             "transform and x86_64 SSE2 transform via hook H3. Oracle: jxlgen::dctref (definitions in f64): |out-ref| <= K*2^-24*max(||C||_2, "
+             "||ref||_inf), K = 8M + 256*max(0, log2 M - 5), M = max(W,H); generic vs x86 within the same bound; sentinel padding outside the "
+             "block untouched. signature = (type, input class incl. impulse frequency quadrant, alignment x stride class, expected x86 path); "
+             "non-trivial unless all-zero"),
+    "assumptions": [
+        "AFV basis table transcribed as data from the pinned decoder source (no format text in the sandbox); checked orthonormal to 1.5e-14 at start-up",
+        "coefficient grid is the natural layout the block transform receives; the transposed storage is applied by the coefficient reader, outside this property",
+        "for n >= 64 the tolerance includes 256 eps per level for the decoder's f32-cos 1/(2cos) tables (precision weakness noted in DESIGN.md)",
+        "CPU here has sse4.1/avx2/fma: SSE4.1 dispatch and forced SSE2 variant run; aarch64/wasm not run; inputs finite and denormal-free",
+    ],
+    "level_text": ("exploration: every impulse position of every type (<=64x64 in quick, all 256x256 positions in thorough) plus hundreds of "
+                   "thousands of dense/structured blocks and varblock tilings, on every x86 path and alignment class"),
+    "level_note": "trusted: jxlgen::dctref (O(N^2)/separable f64 evaluation), comparison code in c16.rs, hook H3 wrappers (pass-through)",
+    "technique": "runtime differential monitor: f64 definition model vs real generic/SSE code through hook H3",
+    "quick": {"cases": 300000, "floor": 100000, "time_budget": 300},
+    "thorough": {"cases": 8000000, "floor": 2500000, "time_budget": 3000},
+}
+
+PROPS["C18"] = {
+    "worker": "c18", "variant": "chk", "level": "exploration",
+    "rule": ("case = ICC profile (8 real profiles of the repo, mutated real, colour_encoding_to_icc output, structured random header+0..60 "
+             "tags with shared/overlapping offsets, malformed tag tables, byte strings of lengths 0,1,..,127,128,129,131,132.. up to 310 KiB) "
+             "encoded by jxlgen::icc with random command segmentation (every command, width, order, stride, shuffles, tag shortcuts) and a random "
+             "41-context entropy code (prefix/ANS, LZ77, clustering); decoded by read_icc+decode_icc and 1/5 through a codestream via "
+             "JxlImage::original_icc() incl. prefix feeding; or an inconsistent encoding (15 kinds + symbol>=256 + bad ANS final state) that must "
+             "be Err. signature = (valid/hostile kind, profile family, tag-list class, set of main command kinds, predicted-run widths, entropy "
+             "class); non-trivial iff profile non-empty"),
+    "assumptions": [
+        "jxlgen::icc written from the format definition; interleaving of width-4 runs with length 1 or 2 mod 4 follows the format text (libjxl's loop order may differ there: counted, not judged)",
+        "tag commands only for entries with tagstart+tagsize<=size and num_tags<=(size-128)/12 in the judged share (the decoder enforces these extra limits; counted separately)",
+        "enc_size <= output_size+65536 (reader plausibility rule), profiles <= 310 KiB",
+    ],
+    "level_text": ("exploration: about a million independently encoded ICC streams per quick run, byte-exact output and exact bit count; "
+                   "every inconsistent kind must be rejected"),
+    "level_note": "trusted: jxlgen::icc encoder (inverse of each command, validated against the pinned decoder), jxlgen entropy encoder",
+    "technique": "runtime differential monitor: reference ICC encoder -> real decoder, exact byte/bit oracle; inconsistent encodings must be Err",
+    "quick": {"cases": 800000, "floor": 200000, "time_budget": 300},
+    "thorough": {"cases": 25000000, "floor": 5000000, "time_budget": 3000},
+}
+
+_C19_EXTRA = {"allow": "all", "report-known": "1"}
+PROPS["C19"] = {
+    "worker": "c19", "variant": "chk", "level": "exploration",
+    "rule": ("case = one of (a) enum colour encoding (RGB/Grey x {D65,E,DCI,custom: eq-named/near/typical/wide/extreme} x {sRGB,2100,P3,custom} "
+             "x {709,lin,sRGB,PQ,DCI,HLG,Gamma over the 24-bit field} x 4 intents), optionally via the codestream field coding, "
+             "colour_encoding_to_icc -> with_icc compared per the property (xy tol = max(1e-4, 3 x s15Fixed16 bound)); "
+             "(b) ColorTransform tf<->Linear on sorted ramps, rows 1..67(+..700), each step vs the f64 definition, finite, monotone, round trip "
+             "in linear light; (c) identity transform (enum / own-profile / ICC-only) is_noop + bit-identical. signature = (sub-check, colour "
+             "space, wp kind, primaries kind, tf kind, intent | dir, ramp, length class, intensity class | form); non-trivial unless tf=Linear in (b)"),
+    "assumptions": [
+        "f64 reference colorimetry and transfer-function definitions in c19.rs are written from the standards, not from jxl-color",
+        "(b) tolerances are ~3x the measured accuracy of the decoder's fast approximations; decode direction only isolated for intensity_target <= 255",
+        "gamma field values 0 and > 10^7 are not valid encodings (the reference decoder rejects such headers): excluded from judgement",
+        "encodings whose numbers leave s15Fixed16 or whose xy tolerance would exceed 5e-3 are inconclusive",
+        "six known defect classes are reported under signatures dev:<class> and listed in known_findings.json",
+    ],
+    "level_text": ("exploration: tens of millions of encodings / transfer-function ramps per quick run against an independent f64 model"),
+    "level_note": "trusted: f64 model and comparison code in c19.rs",
+    "technique": "runtime monitor: real synthesiser/parser/transforms vs independent f64 model and definitions",
+    "quick": {"cases": 30000000, "floor": 6000000, "time_budget": 300, "extra": _C19_EXTRA},
+    "thorough": {"cases": 900000000, "floor": 150000000, "time_budget": 3000, "extra": _C19_EXTRA},
+}
+
 ALL = ["C%02d" % i for i in range(1, 21)]
-HOOK_COMMITS = []
+HOOK_COMMITS = ["27cc801"]
 NOT_APPLICABLE = {p: "check not built yet in this session (work in progress; see DESIGN.md section 9 for order)" for p in ALL if p not in PROPS}
